@@ -20,11 +20,13 @@ structure TGuards where
   checkSkip : Bool         -- connection_check_timedout: `if (c->suspended) return false;`
   restartNormal : Bool     -- resume: last_activity = now for a connection of the default-timeout list
   restartManual : Bool     -- resume: last_activity = now for a connection of the manual-timeout list
+  setSkipsSusp : Bool      -- MHD_set_connection_option (TIMEOUT): the list moves are inside `if (! connection->suspended)`
   deriving DecidableEq, Repr
 
 def srcTGuards : TGuards :=
   { activitySkip := Mhd.Gen.Susp.activityGuard, checkSkip := Mhd.Gen.Susp.timedOutGuard,
-    restartNormal := Mhd.Gen.Susp.resumeRestartsTimerNormal, restartManual := Mhd.Gen.Susp.resumeRestartsTimerManual }
+    restartNormal := Mhd.Gen.Susp.resumeRestartsTimerNormal, restartManual := Mhd.Gen.Susp.resumeRestartsTimerManual,
+    setSkipsSusp := Mhd.Gen.Susp.setTimeoutSkipsSuspended }
 
 structure TState where
   now : Nat := 0               -- MHD_monotonic_msec_counter
@@ -34,11 +36,13 @@ structure TState where
   suspended : Bool := false
   closedTO : Bool := false     -- closed with MHD_REQUEST_TERMINATED_TIMEOUT_REACHED
   resumedAt : Nat := 0         -- ghost: time of the last resume (or of the start)
+  cntNormal : Nat := 0         -- how often the connection is linked into normal_timeout_head … _tail (XDLL)
+  cntManual : Nat := 0         -- how often it is linked into manual_timeout_head … _tail
   deriving DecidableEq, Repr
 
 inductive TOp
   | tick (ms : Nat)            -- the clock advances
-  | setTimeout (ms : Nat)      -- MHD_set_connection_option (MHD_CONNECTION_OPTION_TIMEOUT): also refreshes last_activity
+  | setTimeout (ms : Nat)      -- MHD_set_connection_option (MHD_CONNECTION_OPTION_TIMEOUT), at any time, by any thread
   | activity                   -- MHD_update_last_activity_ (successful recv / send)
   | idle                       -- the timeout check of MHD_connection_handle_idle
   | suspend
@@ -48,9 +52,27 @@ inductive TOp
 /-- the connection is in the default-timeout list (else: manual-timeout list) -/
 def TState.inNormal (s : TState) : Bool := s.timeout == s.dflt
 
+/-- XDLL_remove from the list selected by the current timeout value -/
+def TState.unlink (s : TState) : TState :=
+  if s.inNormal then { s with cntNormal := s.cntNormal - 1 } else { s with cntManual := s.cntManual - 1 }
+
+/-- XDLL_insert / MHD_normal_timeout_insert_sorted_ into the list selected by the current timeout value -/
+def TState.link (s : TState) : TState :=
+  if s.inNormal then { s with cntNormal := s.cntNormal + 1 } else { s with cntManual := s.cntManual + 1 }
+
+/-- the list part of MHD_set_connection_option (TIMEOUT), under cleanup_connection_mutex -/
+def setTO (g : TGuards) (s0 : TState) (ms : Nat) : TState :=
+  if s0.suspended then
+    -- "Suspended connections are not in the timeout lists, the proper list is chosen by the new value
+    --  when the connection is resumed"
+    (if g.setSkipsSusp then { s0 with timeout := ms } else { s0 with timeout := ms }.link)
+  else { s0.unlink with timeout := ms }.link
+
 def step (g : TGuards) (s : TState) : TOp → TState
   | .tick ms => { s with now := s.now + ms }
-  | .setTimeout ms => if s.suspended then s else { s with timeout := ms, lastAct := s.now }
+  | .setTimeout ms =>
+    -- `if (0 == connection->connection_timeout_ms) connection->last_activity = now;`
+    setTO g (if s.timeout = 0 then { s with lastAct := s.now } else s) ms
   | .activity =>
     if s.timeout = 0 then s
     else if g.activitySkip && s.suspended then s
@@ -60,18 +82,18 @@ def step (g : TGuards) (s : TState) : TOp → TState
     else if g.checkSkip && s.suspended then s
     else if s.timeout ≠ 0 ∧ s.timeout < s.now - s.lastAct then { s with closedTO := true }
     else s
-  | .suspend => if s.closedTO then s else { s with suspended := true }
+  | .suspend => if s.closedTO || s.suspended then s else { s.unlink with suspended := true }
   | .resume =>
     if !s.suspended then s else
     let restart := s.timeout ≠ 0 ∧ (if s.inNormal then g.restartNormal else g.restartManual) = true
-    { s with suspended := false, resumedAt := s.now, lastAct := if restart then s.now else s.lastAct }
+    { s with suspended := false, resumedAt := s.now, lastAct := if restart then s.now else s.lastAct }.link
 
 def run (g : TGuards) : TState → List TOp → TState
   | s, [] => s
   | s, op :: ops => run g (step g s op) ops
 
 def TGuards.Sound (g : TGuards) : Prop :=
-  g.activitySkip = true ∧ g.checkSkip = true ∧ g.restartNormal = true ∧ g.restartManual = true
+  g.activitySkip = true ∧ g.checkSkip = true ∧ g.restartNormal = true ∧ g.restartManual = true ∧ g.setSkipsSusp = true
 
 instance (g : TGuards) : Decidable g.Sound := by unfold TGuards.Sound; infer_instance
 
